@@ -7,7 +7,7 @@ scratch GeneratedState.lean, compile it to a scratch .olean (module StScratch.Ge
 Proofs/C20c.lean in which only the import line `import FancyModel.GeneratedState` is redirected to it. Nothing under /repo or
 /verif/lean is written. Prints a markdown table.
 
-usage: rs2lean_state_sensitivity.py [--work DIR]      (default /tmp/stsens)
+usage: rs2lean_state_sensitivity.py [--work DIR] [--only SUBSTRING-OF-THE-CASE-NAME]      (default /tmp/stsens)
 """
 import glob, os, re, shutil, subprocess, sys
 
@@ -77,6 +77,72 @@ def mutations(src):
     yield ('(control) a tracing call `self.trace_stack("save");` and a `#[cfg(..)]` statement added (skipped)',
            once(src, '        let result = self.get(sp);\n',
                 '        let result = self.get(sp);\n        self.trace_stack("stack_pop");\n        #[cfg(feature = "std")]\n        println!("{}", result);\n', 's'))
+    # ---- the widened subset
+    yield ('(control) stack_pop: the local `sp` renamed to `n` (a name the generated code uses itself: renamed apart; same meaning)',
+           once(src, '''        let sp = self.get(explicit_sp) - 1;
+        let result = self.get(sp);
+        self.save(explicit_sp, sp);
+        result''', '''        let n = self.get(explicit_sp) - 1;
+        let result = self.get(n);
+        self.save(explicit_sp, n);
+        result''', 'w1'))
+    yield ('(control) stack_pop: `let sp = self.get(explicit_sp); let sp = sp - 1;` (a shadowing `let` in the same block, same meaning)',
+           once(src, '        let sp = self.get(explicit_sp) - 1;\n        let result = self.get(sp);', '        let sp = self.get(explicit_sp);\n        let sp = sp - 1;\n        let result = self.get(sp);', 'w0'))
+    yield ('(rejected?) stack_push: a `let sp = 0;` inside the `if` block shadows the `sp` of the enclosing block',
+           once(src, '        if self.saves.len() == sp {\n            self.saves.push(val);', '        if self.saves.len() == sp {\n            let sp = 0;\n            self.saves.push(val + sp);', 'w00'))
+    yield ('(control) stack_pop: `let explicit_sp: usize = self.explicit_sp;` (type annotation, same meaning)',
+           once(src, '''        let explicit_sp = self.explicit_sp;
+        let sp = self.get(explicit_sp) - 1;''', '''        let explicit_sp: usize = self.explicit_sp;
+        let sp = self.get(explicit_sp) - 1;''', 'w2'))
+    yield ('(refactor, same meaning) backtrack_cut: an extra early `return` for a state without branches, `if self.stack.is_empty() && count == 0 { return; }` (same meaning: then `self.stack.len() == count`)',
+           once(src, '''        if self.stack.len() == count {
+            // no backtrack branches to discard, all good
+            return;
+        }''', '''        if self.stack.is_empty() && count == 0 {
+            return;
+        }
+        if self.stack.len() == count {
+            // no backtrack branches to discard, all good
+            return;
+        }''', 'w3'))
+    bm = '''        let mut saved = BTreeSet::new();
+        // keep all the old saves of our branch (they're all for different slots)
+        for &Save { slot, .. } in &self.oldsave[oldsave_start..oldsave_end] {
+            saved.insert(slot);
+        }'''
+    bm2 = '''            let new_slot = saved.insert(slot);
+'''
+    yield ('(p) backtrack_cut: the set of slots as a `u64` bit mask (`saved |= 1 << slot`, `saved & (1 << slot) == 0`)',
+           once(once(src, bm, '''        let mut saved = 0u64;
+        for &Save { slot, .. } in &self.oldsave[oldsave_start..oldsave_end] {
+            saved |= 1 << slot;
+        }''', 'w4'), bm2, '''            let new_slot = saved & (1 << slot) == 0;
+            saved |= 1 << slot;
+''', 'w4b'))
+    yield ('(q) backtrack_cut: `end - self.stack[count].nsave` -> `end.saturating_sub(self.stack[count].nsave)`',
+           once(src, 'let start = end - self.stack[count].nsave;', 'let start = end.saturating_sub(self.stack[count].nsave);', 'w5'))
+    yield ('(r) push: the stack limit halved, `self.stack.len() < self.max_stack >> 1`',
+           once(src, 'if self.stack.len() < self.max_stack {', 'if self.stack.len() < self.max_stack >> 1 {', 'w6'))
+    yield ('(refactor, same meaning) pop: the restore loop written as `let mut k = 0; while k < n { …; k += 1; }`',
+           once(src, '''        for _ in 0..self.nsave {
+            let Save { slot, value } = self.oldsave.pop().unwrap();
+            self.saves[slot] = value;
+        }''', '''        let n = self.nsave;
+        let mut k = 0;
+        while k < n {
+            let Save { slot, value } = self.oldsave.pop().unwrap();
+            self.saves[slot] = value;
+            k += 1;
+        }''', 'w7'))
+    yield ('(rejected?) pop: the restore loop as `while self.nsave > 0 { …; self.nsave -= 1; }` (no bound evident)',
+           once(src, '''        for _ in 0..self.nsave {
+            let Save { slot, value } = self.oldsave.pop().unwrap();
+            self.saves[slot] = value;
+        }''', '''        while self.nsave > 0 {
+            let Save { slot, value } = self.oldsave.pop().unwrap();
+            self.saves[slot] = value;
+            self.nsave -= 1;
+        }''', 'w8'))
     yield ('(rejected?) get: `self.saves[slot]` -> `*self.saves.get(slot).unwrap_or(&usize::MAX)`',
            once(src, '    fn get(&self, slot: usize) -> usize {\n        self.saves[slot]\n', '    fn get(&self, slot: usize) -> usize {\n        *self.saves.get(slot).unwrap_or(&usize::MAX)\n', 't'))
 
@@ -100,6 +166,7 @@ def main():
     lean_bin = sh(['lake', 'env', 'which', 'lean'], cwd=LEAN).stdout.strip().split('\n')[-1]
     src = open(SRC).read()
     cases = [('unmutated /repo/src/vm.rs', src)] + list(mutations(src))
+    only = sys.argv[sys.argv.index('--only') + 1] if '--only' in sys.argv else None
     outside = []
     for p in sorted(glob.glob(os.path.join(VERIF, 'seeded', '*', '*', 'patch.diff'))):
         if 'src/vm.rs' not in open(p).read():
@@ -117,6 +184,8 @@ def main():
             outside.append(name)
         else:
             cases.append((name, text))
+    if only is not None:
+        cases = cases[:1] + [x for x in cases[1:] if only in x[0]]
     base_gen = None
     rows = []
     for i, (name, text) in enumerate(cases):
